@@ -28,10 +28,11 @@ SYNC = {'_sync_link_manager'}
 
 def run(ctx):
     ix = ctx.index
-    rule_a(ctx, ix)
-    rule_b(ctx, ix)
-    rule_c(ctx, ix)
-    rule_d(ctx, ix)
+    ctx.guard(rule_a, ctx, ix)
+    ctx.guard(rule_b, ctx, ix)
+    ctx.guard(rule_c, ctx, ix)
+    ctx.guard(rule_d, ctx, ix)
+    ctx.guard(rule_e, ctx, ix)
 
 
 def _guard_update_external(src):
@@ -282,6 +283,42 @@ def rule_d(ctx, ix):
         ctx.ob(R, f.construct, 'matching links are removed through remove_link (which recomputes)', bool(rm),
                detail='%s no longer removes the links it found through remove_link: the datasets keep the derived attributes'
                       % f.construct, where=f.where)
+
+
+def rule_e(ctx, ix):
+    """The "nothing changed" shortcuts that skip installing recomputed link information must compare the values, not only the keys."""
+    R = 'C03.e'
+    ctx.describe(R, 'no-change shortcuts compare what they are about to replace (values, not only keys)', floor=2)
+    base = ix.cls('glue.core.data.BaseCartesianData')
+    rows = [('_set_externally_derivable_components', '_externally_derivable_components', '.link',
+             'the link each attribute is derived through'),
+            ('_set_pixel_aligned_data', '_pixel_aligned_data', '[', 'the axis order stored for each aligned dataset')]
+    for meth, field, needle, what in rows:
+        f = base.resolve_func(meth)
+        if f is None:
+            raise AnalysisError('BaseCartesianData.%s vanished' % meth)
+        s = f.self_name
+        new = f.params[1]
+        store = [st for st in walk_no_nested(f.node) if isinstance(st, ast.Assign) and unparse(st.targets[0]) == '%s.%s' % (s, field)]
+        if len(store) != 1:
+            raise AnalysisError('%s: store of %s not recognised' % (f.construct, field))
+        early = [r for r in ast.walk(f.node) if isinstance(r, ast.Return) and r.lineno < store[0].lineno]
+        if not early:
+            ctx.ob(R, f.construct, 'no shortcut: the recomputed information is always installed', True, nontrivial=False)
+            continue
+        cmps = []
+        for n in ast.walk(f.node):
+            if isinstance(n, ast.Compare) and getattr(n, 'lineno', 0) < store[0].lineno:
+                l, r = unparse(n.left), unparse(n.comparators[0])
+                sides = l + ' ' + r
+                if ('%s.%s[' % (s, field) in sides) and ('%s[' % new in sides) and \
+                        isinstance(n.ops[0], (ast.IsNot, ast.Is, ast.NotEq, ast.Eq)):
+                    if needle == '[' or (needle in l and needle in r):
+                        cmps.append(n)
+        ctx.ob(R, f.construct, 'the shortcut compares %s of the stored and the new mapping' % what, bool(cmps),
+               detail='%s returns early ("unchanged") without comparing %s: when the same attributes become reachable through other '
+                      'links (a link replaced by one with another function, a shorter chain added) the dataset keeps deriving them '
+                      'through the old links' % (f.construct, what), where=where(f, early[-1]))
 
 
 def _direct_loop(loop, node):
